@@ -2,6 +2,8 @@
 //! usage: trh <ops-file>      (prints the event log, one `case <n>` block per case)
 mod world;
 mod mw_bulkhead;
+mod mw_adaptive;
+mod mw_limit;
 mod mw_stack;
 mod mw_timelimiter;
 mod mw_chaos;
@@ -38,6 +40,8 @@ fn make(mw: &str, kv: &Kv) -> Option<Box<dyn Mw>> {
         "chaos" => Some(Box::new(mw_chaos::Adapter::new(kv))),
         "timelimiter" => Some(Box::new(mw_timelimiter::Adapter::new(kv))),
         "stack" => Some(Box::new(mw_stack::Adapter::new(kv))),
+        "limit" => Some(Box::new(mw_limit::Adapter::new(kv))),
+        "adaptive" => Some(Box::new(mw_adaptive::Adapter::new(kv))),
         _ => None,
     }
 }
